@@ -82,6 +82,29 @@ def run_canary(prop, can, repo):
         shutil.rmtree(d, ignore_errors=True)
 
 
+def run_benign(prop, var, repo):
+    """behaviour-preserving variant: the rules must stay silent"""
+    new, why = apply_canary(var, repo)
+    res = {"name": var["name"], "file": var["file"], "kind": "benign"}
+    if new is None:
+        res.update(status="unapplied", reason=why)
+        return res
+    d = side_dir()
+    try:
+        mf = os.path.join(d, "variant.go")
+        open(mf, "w").write(new)
+        rc, out = run([RR, "-prop", prop, "-tier", "quick", "-repo", repo, "-verif", d, "-overlay", "%s=%s" % (var["file"], mf)])
+        if "type/parse errors" in out:
+            res.update(status="mutant-does-not-compile", detail=out[-400:])
+        elif rc == 0:
+            res.update(status="silent-as-expected")
+        else:
+            res.update(status="false-alarm", detail=[l for l in out.splitlines() if l.startswith("  violated")][:5])
+        return res
+    finally:
+        shutil.rmtree(d, ignore_errors=True)
+
+
 def main():
     prop, repo = sys.argv[1], (sys.argv[2] if len(sys.argv) > 2 else "/repo")
     t0 = time.time()
@@ -123,11 +146,17 @@ def main():
     cf = os.path.join(VERIF, "canaries", prop + ".json")
     if os.path.exists(cf):
         cans = json.load(open(cf))["canaries"]
+    bens = []
+    bf = os.path.join(VERIF, "canaries", prop + ".benign.json")
+    if os.path.exists(bf):
+        bens = json.load(open(bf))["variants"]
     with ThreadPoolExecutor(max_workers=6) as ex:
         alt_f = [ex.submit(alt, a) for a in alts]
         can_f = [ex.submit(run_canary, prop, c, repo) for c in cans]
+        ben_f = [ex.submit(run_benign, prop, b, repo) for b in bens]
         thorough["alt_configs"] = [f.result() for f in alt_f]
         thorough["canaries"] = [f.result() for f in can_f]
+        thorough["benign_variants"] = [f.result() for f in ben_f]
 
     for a in thorough["alt_configs"]:
         print("alt-config %s: exit=%s obligations=%s violations=%d" % (a["config"], a["exit"], a["obligations"], len(a["violations"])))
@@ -145,6 +174,10 @@ def main():
         print("canary %-40s %s%s" % (cres["name"], cres["status"], (" -> " + cres.get("reported", "")) if cres["status"] == "fired" else (" (" + str(cres.get("reason", cres.get("detail", "")))[:200] + ")")))
         if cres["status"] in ("silent", "mutant-does-not-compile"):
             silent.append(cres["name"])
+    for bres in thorough.get("benign_variants", []):
+        print("benign %-40s %s %s" % (bres["name"], bres["status"], str(bres.get("detail", bres.get("reason", "")))[:300]))
+        if bres["status"] in ("false-alarm", "mutant-does-not-compile"):
+            silent.append("benign:" + bres["name"])
     try:
         ev = json.load(open(evp))
         ev["tier"] = "thorough"
@@ -157,7 +190,7 @@ def main():
         print("cannot update evidence:", e)
         final_rc = final_rc or 2
     if silent and final_rc == 0:
-        print("SELFTEST-FAIL property=%s canaries applied but rule stayed silent: %s" % (prop, ", ".join(silent)))
+        print("SELFTEST-FAIL property=%s canaries that stayed silent / benign variants that were flagged: %s" % (prop, ", ".join(silent)))
         final_rc = 2
     sys.exit(final_rc)
 
